@@ -211,21 +211,53 @@ func c19Build(c c19Case) (*loads.Document, *untyped.API, error) {
 	if !c.jsonDefaults {
 		api = api.WithoutJSONDefaults()
 	}
-	for _, mt := range c.rc {
-		api.RegisterConsumer(mt, c19Consumer)
+	// An API object is validated whenever its owner likes, also between registrations: on every other case
+	// the registrations the description asks for are made first and the API is validated (result
+	// discarded), then the remaining ones follow. The verdict judged is that of the final state alone.
+	an := analysis.New(doc.Spec())
+	need := map[string]bool{}
+	for _, x := range an.RequiredConsumes() {
+		need["c:"+x] = true
 	}
-	for _, mt := range c.rp {
-		api.RegisterProducer(mt, c19Producer)
+	for _, x := range an.RequiredProduces() {
+		need["p:"+x] = true
 	}
-	for _, s := range c.ra {
-		api.RegisterAuth(s, c19Auth)
+	for _, x := range an.RequiredSecuritySchemes() {
+		need["a:"+x] = true
 	}
-	for _, o := range c.ro {
-		p := strings.SplitN(o, "|", 2)
-		if len(p) < 2 {
-			p = append(p, "")
+	for _, x := range an.OperationMethodPaths() {
+		need["o:"+x] = true
+	}
+	twoPhase := (len(c.rc)+len(c.rp)+len(c.ra)+len(c.ro))%2 == 1
+	for phase := 0; phase < 2; phase++ {
+		now := func(key string) bool { return !twoPhase && phase == 0 || twoPhase && need[key] == (phase == 0) }
+		for _, mt := range c.rc {
+			if now("c:" + mt) {
+				api.RegisterConsumer(mt, c19Consumer)
+			}
 		}
-		api.RegisterOperation(p[0], p[1], c19Handler)
+		for _, mt := range c.rp {
+			if now("p:" + mt) {
+				api.RegisterProducer(mt, c19Producer)
+			}
+		}
+		for _, s := range c.ra {
+			if now("a:" + s) {
+				api.RegisterAuth(s, c19Auth)
+			}
+		}
+		for _, o := range c.ro {
+			p := strings.SplitN(o, "|", 2)
+			if len(p) < 2 {
+				p = append(p, "")
+			}
+			if now("o:" + strings.ToUpper(p[0]) + " " + p[1]) {
+				api.RegisterOperation(p[0], p[1], c19Handler)
+			}
+		}
+		if twoPhase && phase == 0 {
+			_ = api.Validate()
+		}
 	}
 	return doc, api, nil
 }
